@@ -7,6 +7,7 @@ from fw import gZ, glist, gopt, gpair, gapp, gnat
 # model integers -> Python keys/values; includes the falsy ones the property names
 PYV = [0, "", (), 1, "a", (0,), "0", 2]
 OPS = ["InsL", "InsR", "DelL", "DelR", "SetItem", "DelItem"]
+SEED_KINDS = ["dict", "OrderedDict", "UserDict"]      # the Python class of a seed mapping (the model sees a mapping)
 
 
 def all_ops(nk, nv):
@@ -19,6 +20,35 @@ def all_ops(nk, nv):
     return res
 
 
+def core_ops(nk, nv):
+    """the four mutators without their __setitem__/__delitem__ aliases"""
+    res = []
+    for k in range(nk):
+        for v in range(nv):
+            res += [["InsL", k, v], ["InsR", v, k]]
+    return res + [["DelL", k] for k in range(nk)] + [["DelR", v] for v in range(nv)]
+
+
+def world_ops(ns, nm, nk, nv, map_ops):
+    """every step of a world with ns seed mappings and nm map variables (model/BiMapHeap.v wop)"""
+    res = []
+    for j in range(nm):
+        res.append(["New", j, ["none"]])
+        res += [["New", j, ["seed", s]] for s in range(ns)]
+        res += [["New", j, ["map", i]] for i in range(nm)]
+        res += [["Op", j, list(o)] for o in map_ops]
+    for s in range(ns):
+        res += [["SeedSet", s, k, v] for k in range(nk) for v in range(nv)]
+        res += [["SeedDel", s, k] for k in range(nk)]
+        res.append(["SeedClear", s])
+    return res
+
+
+def W(seeds, nm, ops, nk=3, nv=3, skinds=None):
+    return {"kind": "world", "nk": nk, "nv": nv, "seeds": seeds, "skinds": skinds or ["dict"] * len(seeds),
+            "nm": nm, "ops": ops}
+
+
 class C18(fw.Prop):
     id = "C18"
     props_file = "props/C18.v"
@@ -29,12 +59,87 @@ class C18(fw.Prop):
             "scope (all histories of a fixed length over a 2x2 / 3x3 universe) plus random histories "
             "over 6 keys x 6 values with random initial maps (including non-injective ones); "
             "non-trivial = the history contains a displacing insert (key or value already present) "
-            "or a deletion of a present key; distinct = by canonical input")
+            "or a deletion of a present key; distinct = by canonical input.  World histories: several map "
+            "variables and the caller's seed mappings (dict / OrderedDict / UserDict) in one run -- construction "
+            "from nothing, from a seed, from another map, mutators on any map, writes of the caller to the seeds; "
+            "after every step ALL maps and seeds are observed; exhaustive = every pair of steps after two "
+            "constructions from one seed and every single step after three other construction prefixes over a "
+            "2x2 universe, plus random histories; non-trivial = a map or a "
+            "seed is modified while another live map shares its origin or is its origin")
     trusted = ["keys/values are modelled as an arbitrary type with decidable equality; Python's == / hash "
                "on the sampled keys (0, '', (), 1, 'a', (0,), '0', 2) is assumed to be that equality"]
+    trusted = trusted + ["identity of Python dict objects is modelled by heap addresses (model/BiMapHeap.v); a seed mapping "
+                         "of class dict / OrderedDict / UserDict is the same mapping to the model"]
     assumptions = ["None is never used as a key or value (excluded by the property)"]
 
+    def corpus(self, ctx):
+        two = [[0, 0], [1, 1]]
+        return [
+            # seeded C18-f: the constructor kept the caller's dict object as the forward dict
+            W([two], 2, [["New", 0, ["seed", 0]], ["New", 1, ["seed", 0]], ["Op", 0, ["InsL", 2, 2]]]),
+            W([two], 2, [["New", 0, ["seed", 0]], ["New", 1, ["seed", 0]], ["Op", 0, ["InsL", 2, 2]],
+                         ["Op", 0, ["InsR", 1, 0]], ["Op", 0, ["DelItem", 1]], ["Op", 1, ["DelR", 0]]]),
+            W([two], 1, [["New", 0, ["seed", 0]], ["SeedSet", 0, 2, 1]]),            # the caller reuses its dict afterwards
+            W([two], 1, [["New", 0, ["seed", 0]], ["SeedClear", 0]]),
+            W([two], 1, [["New", 0, ["seed", 0]], ["Op", 0, ["DelL", 0]]]),            # the map must not write into the seed
+            W([two], 2, [["New", 0, ["seed", 0]], ["New", 1, ["map", 0]], ["Op", 0, ["DelL", 0]],
+                         ["Op", 1, ["InsR", 1, 2]]]),                                    # a map built from a map
+            W([], 2, [["New", 0, ["none"]], ["New", 1, ["none"]], ["Op", 0, ["InsL", 0, 0]]]),   # a shared default
+            W([two, [[0, 1], [1, 1]]], 2, [["New", 0, ["seed", 1]], ["New", 0, ["seed", 0]], ["New", 0, ["seed", 1]],
+                                           ["SeedDel", 1, 0], ["New", 1, ["seed", 1]]],
+              skinds=["UserDict", "OrderedDict"]),                                       # rejected construction changes nothing
+        ]
+
+    def _gen_world(self, rng, tier, ctx):
+        cases = []
+        # exhaustive: two maps built from one seed (from the seed twice / the second from the first), then every
+        # pair of steps of the whole world over a 2x2 universe
+        alpha = world_ops(1, 2, 2, 2, core_ops(2, 2))
+        pre = [["New", 0, ["seed", 0]], ["New", 1, ["seed", 0]]]
+        for h in itertools.product(alpha, repeat=2):
+            cases.append(W([[[0, 0]]], 2, [list(o) for o in pre] + [list(o) for o in h], nk=2, nv=2))
+        for pre in ([["New", 0, ["seed", 0]], ["New", 1, ["map", 0]]], [["New", 0, ["none"]], ["New", 1, ["none"]]],
+                    [["New", 0, ["seed", 0]]]):
+            for o in alpha:
+                cases.append(W([[[0, 0]]], 2, [list(x) for x in pre] + [list(o)], nk=2, nv=2))
+        ctx.stats["exhaustive_scopes"] = ctx.stats.get("exhaustive_scopes", []) + [
+            f"worlds (2 maps, 1 seed {{0:0}}, 2x2): two constructions from the seed then all {len(alpha)}^2 pairs of "
+            f"steps; seed then map-from-map / two BiMap() / one map from the seed, then each of the {len(alpha)} steps"]
+        n = 250 if tier == "quick" else 1500
+        for _ in range(n):
+            nk, nv = rng.randint(2, 5), rng.randint(2, 5)
+            ns, nm = rng.randint(1, 2), rng.randint(2, 3)
+            seeds = []
+            for _s in range(ns):
+                ks = rng.sample(range(nk), rng.randint(0, nk))
+                if rng.random() < 0.85:                                  # injective
+                    vs = rng.sample(range(nv), min(len(ks), nv))
+                    seeds.append([[k, v] for k, v in zip(ks, vs)])
+                else:
+                    seeds.append([[k, rng.randrange(nv)] for k in ks])
+            skinds = [rng.choice(SEED_KINDS) if rng.random() < 0.4 else "dict" for _s in range(ns)]
+            mops = all_ops(nk, nv)
+            ops = []
+            for t in range(rng.randint(2, 24)):
+                x = rng.random()
+                if x < (0.7 if t < 2 else 0.15):
+                    y = rng.random()
+                    src = ["seed", rng.randrange(ns)] if y < 0.65 else ["map", rng.randrange(nm)] if y < 0.9 else ["none"]
+                    ops.append(["New", rng.randrange(nm), src])
+                elif x < 0.75:
+                    ops.append(["Op", rng.randrange(nm), list(rng.choice(mops))])
+                else:
+                    s_ = rng.randrange(ns)
+                    y = rng.random()
+                    ops.append(["SeedSet", s_, rng.randrange(nk), rng.randrange(nv)] if y < 0.6
+                               else ["SeedDel", s_, rng.randrange(nk)] if y < 0.9 else ["SeedClear", s_])
+            cases.append(W(seeds, nm, ops, nk=nk, nv=nv, skinds=skinds))
+        return cases
+
     def generate(self, rng, tier, ctx):
+        return self._gen_single(rng, tier, ctx) + self._gen_world(rng, tier, ctx)
+
+    def _gen_single(self, rng, tier, ctx):
         cases = []
         # exhaustive small scopes
         u22 = all_ops(2, 2)
@@ -77,8 +182,74 @@ class C18(fw.Prop):
             "geti": geti,
         }
 
+    def _wobs(self, seeds, slots, nk, nv):
+        return {"seeds": [[[PYV.index(k), PYV.index(v)] for k, v in sd.items()] for sd in seeds],
+                "slots": [None if bm is None else self._obs(bm, nk, nv) for bm in slots]}
+
+    def _observe_world(self, case):
+        import collections
+        from hugr.utils import BiMap, NotBijection
+        nk, nv = case["nk"], case["nv"]
+        mk = {"dict": dict, "OrderedDict": collections.OrderedDict, "UserDict": collections.UserDict}
+        seeds = [mk[kind]({PYV[k]: PYV[v] for k, v in sd}) for sd, kind in zip(case["seeds"], case["skinds"])]
+        slots = [None] * case["nm"]
+        res = {"init": self._wobs(seeds, slots, nk, nv), "steps": []}
+        for o in case["ops"]:
+            r = "Done"
+            try:
+                if o[0] == "New":
+                    j, src = o[1], o[2]
+                    if src[0] == "none":
+                        arg = ()
+                    elif src[0] == "seed":
+                        arg = (seeds[src[1]],) if src[1] < len(seeds) else None
+                    else:
+                        arg = (slots[src[1]],) if src[1] < len(slots) and slots[src[1]] is not None else None
+                    if arg is not None and j < len(slots):
+                        try:
+                            slots[j] = BiMap(*arg)
+                        except NotBijection:
+                            r = "NotBijection"
+                elif o[0] == "Op":
+                    bm = slots[o[1]] if o[1] < len(slots) else None
+                    if bm is not None:
+                        r = self._apply(bm, o[2])
+                elif o[1] < len(seeds):
+                    sd = seeds[o[1]]
+                    if o[0] == "SeedSet":
+                        sd[PYV[o[2]]] = PYV[o[3]]
+                    elif o[0] == "SeedDel":
+                        sd.pop(PYV[o[2]], None)
+                    else:
+                        sd.clear()
+            except Exception as e:  # anything else is an observable difference
+                r = "Other:" + type(e).__name__
+            res["steps"].append([r, self._wobs(seeds, slots, nk, nv)])
+        return res
+
+    def _apply(self, bm, o):
+        name, args = o[0], [PYV[a] for a in o[1:]]
+        try:
+            if name == "InsL":
+                bm.insert_left(*args)
+            elif name == "InsR":
+                bm.insert_right(*args)
+            elif name == "DelL":
+                bm.delete_left(*args)
+            elif name == "DelR":
+                bm.delete_right(*args)
+            elif name == "SetItem":
+                bm[args[0]] = args[1]
+            elif name == "DelItem":
+                del bm[args[0]]
+            return "Done"
+        except KeyError:
+            return "KeyError"
+
     def observe(self, case, ctx):
         from hugr.utils import BiMap, NotBijection
+        if case.get("kind") == "world":
+            return self._observe_world(case)
         nk, nv = case["nk"], case["nv"]
         try:
             bm = BiMap({PYV[k]: PYV[v] for k, v in case["init"]})
@@ -115,17 +286,68 @@ class C18(fw.Prop):
                     glist(gopt(None if x is None else gZ(x)) for x in o["getl"]),
                     glist(gopt(None if x is None else gZ(x)) for x in o["geti"]))
 
+    def _gwobs(self, o):
+        return gapp("Build_wobs", glist(glist(gpair(gZ(k), gZ(v)) for k, v in sd) for sd in o["seeds"]),
+                    glist(gopt(None if x is None else self._gobs(x)) for x in o["slots"]))
+
+    def _gwop(self, o):
+        if o[0] == "New":
+            src = o[2]
+            g = "sNone" if src[0] == "none" else gapp("sSeed" if src[0] == "seed" else "sMap", gnat(src[1]))
+            return gapp("wNew", gnat(o[1]), g)
+        if o[0] == "Op":
+            return gapp("wOp", gnat(o[1]), gapp(o[2][0], *[gZ(x) for x in o[2][1:]]))
+        return gapp("w" + o[0], gnat(o[1]), *[gZ(x) for x in o[2:]])
+
+    def _literal_world(self, case, obs):
+        steps = []
+        for o, (r, ob) in zip(case["ops"], obs["steps"]):
+            # an unexpected exception class is never equal to the model's outcome of that step
+            rr = r if r in ("Done", "KeyError", "NotBijection") else ("KeyError" if o[0] != "Op" else "NotBijection")
+            steps.append(gpair(self._gwop(o), gpair(rr, self._gwobs(ob))))
+        return gapp("CW", gapp("Build_wcase", glist(gZ(k) for k in range(case["nk"])), glist(gZ(v) for v in range(case["nv"])),
+                               glist(glist(gpair(gZ(k), gZ(v)) for k, v in sd) for sd in case["seeds"]),
+                               gnat(case["nm"]), self._gwobs(obs["init"]), glist(steps)))
+
     def literal(self, case, obs, ctx):
+        if case.get("kind") == "world":
+            return self._literal_world(case, obs)
         steps = []
         if obs["init"] is not None:
             for o, (r, ob) in zip(case["ops"], obs["steps"]):
                 rr = r if r in ("Done", "KeyError") else "NotBijection"   # any other exception: never equal to the model's
                 steps.append(gpair(gapp(o[0], *[gZ(x) for x in o[1:]]), gpair(rr, self._gobs(ob))))
-        return gapp("Build_case", glist(gZ(k) for k in range(case["nk"])), glist(gZ(v) for v in range(case["nv"])),
-                    glist(gpair(gZ(k), gZ(v)) for k, v in case["init"]),
-                    gopt(None if obs["init"] is None else self._gobs(obs["init"])), glist(steps))
+        return gapp("CH", gapp("Build_hcase", glist(gZ(k) for k in range(case["nk"])), glist(gZ(v) for v in range(case["nv"])),
+                               glist(gpair(gZ(k), gZ(v)) for k, v in case["init"]),
+                               gopt(None if obs["init"] is None else self._gobs(obs["init"])), glist(steps)))
+
+    def _nontrivial_world(self, case, obs):
+        # a map or a seed is modified while ANOTHER live map has it as origin or shares its origin
+        nm = case["nm"]
+        origin = [None] * nm                       # per slot: the set of seeds/slots its content was taken from
+        for o, (r, _ob) in zip(case["ops"], obs["steps"]):
+            if r != "Done":
+                continue
+            if o[0] == "New":
+                src = o[2]
+                if src[0] == "seed" and src[1] < len(case["seeds"]):
+                    origin[o[1]] = {("seed", src[1])}
+                elif src[0] == "map" and src[1] < nm and origin[src[1]] is not None:
+                    origin[o[1]] = set(origin[src[1]]) | {("map", src[1])}
+                    origin[src[1]] = set(origin[src[1]]) | {("map", src[1])}
+                elif src[0] == "none":
+                    origin[o[1]] = {("none",)}
+            elif o[0] == "Op" and o[1] < nm and origin[o[1]] is not None:
+                if any(j != o[1] and origin[j] is not None and origin[j] & origin[o[1]] for j in range(nm)):
+                    return True
+            elif o[0].startswith("Seed"):
+                if any(origin[j] is not None and ("seed", o[1]) in origin[j] for j in range(nm)):
+                    return True
+        return False
 
     def nontrivial(self, case, obs):
+        if case.get("kind") == "world":
+            return self._nontrivial_world(case, obs)
         if obs["init"] is None:
             return False
         cur = obs["init"]["items"]
@@ -143,20 +365,40 @@ class C18(fw.Prop):
         return {"input": case, "python_values": [repr(x) for x in PYV[:max(case["nk"], case["nv"])]], "observed": obs}
 
     def signature(self, case, obs, ctx):
+        if case.get("kind") == "world":
+            return "bimap-world:" + ",".join(sorted({o[0] if o[0] != "Op" else o[2][0] for o in case["ops"]}))
         return "bimap:" + ",".join(sorted({o[0] for o in case["ops"]}))
 
     def shrink(self, case):
         ops = case["ops"]
         for i in range(len(ops)):
             yield {**case, "ops": ops[:i] + ops[i + 1:]}
+        if case.get("kind") == "world":
+            for si, sd in enumerate(case["seeds"]):
+                for i in range(len(sd)):
+                    yield {**case, "seeds": case["seeds"][:si] + [sd[:i] + sd[i + 1:]] + case["seeds"][si + 1:]}
+            if any(k != "dict" for k in case["skinds"]):
+                yield {**case, "skinds": ["dict"] * len(case["skinds"])}
+            return
         if case["init"]:
             for i in range(len(case["init"])):
                 yield {**case, "init": case["init"][:i] + case["init"][i + 1:]}
 
     def distribution(self, cases, observations):
-        d = {"histories": len(cases), "ops": {}, "keyerrors": 0, "notbijection_inits": 0, "max_len": 0}
+        d = {"histories": len(cases), "ops": {}, "keyerrors": 0, "notbijection_inits": 0, "max_len": 0,
+             "world_histories": 0, "world_steps": {}, "world_seed_kinds": {}, "world_rejected_constructions": 0}
         for c, o in zip(cases, observations):
             d["max_len"] = max(d["max_len"], len(c["ops"]))
+            if c.get("kind") == "world":
+                d["world_histories"] += 1
+                for k in c["skinds"]:
+                    d["world_seed_kinds"][k] = d["world_seed_kinds"].get(k, 0) + 1
+                for op, (r, _) in zip(c["ops"], o["steps"]):
+                    name = op[0] + (":" + op[2][0] if op[0] == "New" else "")
+                    d["world_steps"][name] = d["world_steps"].get(name, 0) + 1
+                    d["world_rejected_constructions"] += r == "NotBijection"
+                    d["keyerrors"] += r == "KeyError"
+                continue
             if o["init"] is None:
                 d["notbijection_inits"] += 1
                 continue
